@@ -178,7 +178,8 @@ func c08(c *Ctx) {
 				if d.okObj == nil {
 					what = "unchecked (ok discarded)"
 				}
-				construct := "deref " + id.Name + "." + se.Sel.Name + " after " + what + " getUnlocked"
+				// (the local's name is not part of the key: renaming it must not re-key a known finding)
+				construct := "deref <batch>." + se.Sel.Name + " after " + what + " getUnlocked"
 				if seen[construct] && okGuard {
 					continue
 				}
@@ -542,6 +543,74 @@ func c08(c *Ctx) {
 			lf := c.lockFlow(gu, g, lockSet{})
 			r.Check(lf.must[v.ID]["OutputStream.cacheMu"] == "W", "C08.S3", gu.Name(), "cache insert under cacheMu", c.P.Pos(as.Pos()), "lockset "+lf.must[v.ID].String(), "the cache is written without cacheMu in write mode")
 		}
+		// … or the insertion lives in a helper called from here: cache[<its key parameter>] = <its value parameter> under
+		// cacheMu, the key parameter never reassigned, called with the requested id on the found edge
+		if n == 0 {
+			var idP types.Object
+			for _, fld := range gu.FuncType().Params.List {
+				for _, nm := range fld.Names {
+					idP = info.Defs[nm]
+				}
+			}
+			for _, v := range g.Nodes() {
+				if v.Node == nil {
+					continue
+				}
+				for _, call := range astx.Calls(v.Node, false) {
+					fn := astx.Callee(info, call)
+					if fn == nil {
+						continue
+					}
+					h := c.P.FuncOf(fn)
+					if h == nil || h == gu || h.Body() == nil {
+						continue
+					}
+					hi := h.Info()
+					hg := c.Graph(h)
+					hlf := c.lockFlow(h, hg, lockSet{})
+					var hparams []types.Object
+					for _, fld := range h.FuncType().Params.List {
+						for _, nm := range fld.Names {
+							hparams = append(hparams, hi.Defs[nm])
+						}
+					}
+					for _, hv := range hg.Nodes() {
+						as, ok := hv.Node.(*ast.AssignStmt)
+						if !ok || len(as.Lhs) != 1 {
+							continue
+						}
+						ie, ok := ast.Unparen(as.Lhs[0]).(*ast.IndexExpr)
+						if !ok {
+							continue
+						}
+						se, ok := ast.Unparen(ie.X).(*ast.SelectorExpr)
+						if !ok || astx.FieldSel(hi, se) != cacheField {
+							continue
+						}
+						n++
+						kid, isID := ast.Unparen(ie.Index).(*ast.Ident)
+						kpos := -1
+						for k, hp := range hparams {
+							if isID && astx.Obj(hi, kid) == hp && len(defsOf(hi, h.Node(), hp)) == 0 {
+								kpos = k
+							}
+						}
+						argOK := false
+						if kpos >= 0 && kpos < len(call.Args) {
+							if aid, ok := ast.Unparen(call.Args[kpos]).(*ast.Ident); ok && astx.Obj(info, aid) == idP {
+								argOK = true
+							}
+						}
+						r.Check(argOK, "C08.S3", gu.Name(), "the batch is cached under the requested id", c.P.Pos(call.Pos()), "helper(<id parameter>, …) stores under its unassigned key parameter", "the cache helper is not called with the requested id, or reassigns its key: the batch is cached under a different id")
+						okFound, _ := c.errNilAfterCall(gu, g, v.ID, func(fn *types.Func, cc *ast.CallExpr) bool {
+							return fname(fn) == "Get" && fn.Pkg() != nil && fn.Pkg().Path() == pathLevelDB
+						})
+						r.Check(okFound, "C08.S3", gu.Name(), "only found batches are cached", c.P.Pos(call.Pos()), "cache insert on the nil-error edge of db.Get", "a failed look-up is cached: a batch added later under that id stays invisible")
+						r.Check(hlf.must[hv.ID]["OutputStream.cacheMu"] == "W", "C08.S3", h.Name(), "cache insert under cacheMu", c.P.Pos(as.Pos()), "lockset "+hlf.must[hv.ID].String(), "the cache is written without cacheMu in write mode")
+					}
+				}
+			}
+		}
 		r.Check(n == 1, "C08.S3", gu.Name(), "one cache insertion", c.P.Pos(gu.Node().Pos()), "found", "expected exactly one insertion into messagesCache")
 		// the batch is cached (and looked up) under the id that was asked for: the id parameter is never reassigned
 		var idParam types.Object
@@ -712,6 +781,15 @@ func leftConjuncts(n ast.Node, inner ast.Node) []cfgx.Fact {
 
 // isParamIndex: e mentions a slice parameter of fi (msgs[0].Id.Id).
 func isParamIndex(info *types.Info, fi *load.FuncInfo, e ast.Expr) bool {
+	e = astx.Expand(info, e)
+	// a local that is defined once from the parameter (newID := uint64(msgs[0].Id.Id))
+	for k := 0; k < 3; k++ {
+		if d := uniqueDef(info, fi.Node(), e); d != nil {
+			e = ast.Unparen(d)
+			continue
+		}
+		break
+	}
 	b := astx.BaseIdent(stripConv(info, e))
 	if b == nil {
 		return false
